@@ -855,6 +855,15 @@ def defect_cases(case, tagged):
             yield case_of("C-type-empty", "short row", inserted(end, original[:2]), end + 1, kind, where)
         # rule
         yield check_defect("C-%s-rule-empty" % check_type.lower(), "", rule="")
+        # ... also when a cell beyond the parsed columns holds what would be a fine rule (such cells are ignored)
+        for blank in variants(["", " "], at):
+            noted = list(original[:3]) + [blank, original[3]]
+            if i is None:
+                yield case_of("C-%s-rule-empty" % check_type.lower(), "note behind", inserted(end, noted), end + 1, kind,
+                              where)
+            else:
+                yield case_of("C-%s-rule-empty" % check_type.lower(), "note behind", replaced(i, noted), i + 1, kind,
+                              where)
         if check_type == "IsUnique":
             for rule in variants(["%s, %s" % (key, key), "%s, %s, %s" % (key, other_name, key),
                                   "%s,%s" % (key, key)], at):
@@ -869,7 +878,10 @@ def defect_cases(case, tagged):
                 yield check_defect("C-isunique-malformed", pattern, rule=rule)
         else:
             broken = ["%s <", "%s < < 3", "%s 3", "%s < (3", "%s < 3)", "%s ==", "%s < 'x'", "%s <= 'x", "%s < 3 3",
-                      "%s <> 3", "%s = 3", "%s < 3 +", "%s < [3", "%s <= 3]", "%s \"< 3"]
+                      "%s <> 3", "%s = 3", "%s < 3 +", "%s < [3", "%s <= 3]", "%s \"< 3",
+                      # well-formed Python that cannot be evaluated, each for a reason of its own
+                      "%s < [1][5]", "%s < {}['k']", "%s < (1).digits", "%s < len(5)", "%s < 1 // 0", "%s < nothing",
+                      "%s < int('x')", "%s < ().count()", "%s < '%%d' %% 'x'", "%s < 10 ** -1 << 2"]
             for pattern in variants(broken, at):
                 yield check_defect("C-distinctcount-broken", pattern % "f", rule=pattern % key)
             for pattern in variants(["< 3", "3 < %s", "3", "== %s"], at):
